@@ -85,6 +85,7 @@ class Ctx:
     def __init__(self, decls):
         self.fns = {d["name"]: d for d in decls if d.get("kind") == "FunctionDecl" and d.get("name")}
         self.depth = 0
+        self.vars = [{}]          # per function being walked: local name -> (initialiser node, env) for locals initialised once
 
 
 def branch(cx, n, env, conds):
@@ -111,6 +112,11 @@ def branch(cx, n, env, conds):
     v = int_of(n)
     if v is not None:
         return ([conds] if v else []), ([] if v else [conds])
+    if k == "DeclRefExpr" and n["ref"]["name"] in cx.vars[-1] and n["ref"]["name"] not in env:
+        init, ienv = cx.vars[-1][n["ref"]["name"]]
+        return branch(cx, init, ienv, conds)          # `c = lookup(..); if (c)`: the local stands for its initialiser
+    if k == "UnaryOperator" and n.get("opcode") == "&":
+        return [conds], []                            # an address is never null
     if k == "CallExpr":
         callee = strip(n["inner"][0])
         name = callee.get("ref", {}).get("name") if callee.get("kind") == "DeclRefExpr" else None
@@ -130,6 +136,8 @@ def branch(cx, n, env, conds):
                 T += t2; Fa += f2
             return T, Fa
     a = atom(n, env, True)
+    if a[0] == "ROW":
+        return [conds], []                            # a pointer into the table is never null
     return [conds + [a]], [conds + [(a[0], not a[1])]]
 
 
@@ -144,7 +152,16 @@ def walk(cx, stmts, env, conds, out, assigns):
         nxt = []
         for c in live:
             if k == "ReturnStmt":
-                out.append((c, s["inner"][0] if s.get("inner") else None))
+                val = s["inner"][0] if s.get("inner") else None
+                sv = strip(val) if val is not None else None
+                if sv is not None and sv.get("kind") == "ConditionalOperator" and len(sv.get("inner", [])) == 3:
+                    t, f = branch(cx, sv["inner"][0], env, c)
+                    for tc in t:
+                        out.append((tc, sv["inner"][1]))
+                    for fc in f:
+                        out.append((fc, sv["inner"][2]))
+                else:
+                    out.append((c, val))
             elif k in ("ContinueStmt", "BreakStmt"):
                 pass        # leaves the iteration: the path ends here as far as this statement list is concerned
             elif k == "CompoundStmt":
@@ -167,11 +184,13 @@ def walk(cx, stmts, env, conds, out, assigns):
                 for v in s.get("inner", []):
                     if v.get("kind") == "VarDecl" and v.get("inner"):
                         assigns.append((v["name"], c, v["inner"][-1]))
+                        cx.vars[-1][v["name"]] = (v["inner"][-1], dict(env))
                 nxt.append(c)
             elif k == "BinaryOperator" and s.get("opcode") == "=":
                 l = strip(s["inner"][0])
                 if l.get("kind") == "DeclRefExpr":
                     assigns.append((l["ref"]["name"], c, s["inner"][1]))
+                    cx.vars[-1].pop(l["ref"]["name"], None)        # re-assigned: no longer a name for its initialiser
                 nxt.append(c)
             else:
                 nxt.append(c)
@@ -182,15 +201,19 @@ def walk(cx, stmts, env, conds, out, assigns):
 def outcomes_of(cx, fd, env):
     body = [x for x in fd.get("inner", []) if x.get("kind") == "CompoundStmt"]
     out = []; assigns = []
-    if body:
-        walk(cx, body[0].get("inner", []), env, [], out, assigns)
+    cx.vars.append({})
+    try:
+        if body:
+            walk(cx, body[0].get("inner", []), env, [], out, assigns)
+    finally:
+        cx.vars.pop()
     res = []
     for (c, val) in out:
         v = strip(val) if val is not None else None
         if v is not None and v.get("kind") == "DeclRefExpr" and v["ref"]["kind"] == "VarDecl" and any(a[0] == v["ref"]["name"] for a in assigns):
             for (nm, ac, av) in assigns:
                 if nm == v["ref"]["name"]:
-                    res.append((ac, av))
+                    res.append((ac + [x for x in c if x not in ac], av))       # what held at the assignment and at the return
         else:
             res.append((c, val))
     return res
